@@ -433,7 +433,13 @@ func (t *Term) Sort() Sort    { return t.sort }
 func (t *Term) W() int        { return t.sort.W }
 
 // Ctx interns terms. One Ctx per path execution (not shared between goroutines).
+type extractKey struct {
+	a      *Term
+	hi, lo int
+}
+
 type Ctx struct {
+	extMemo map[extractKey]*Term // Extract pushes truncation towards the leaves: without a memo that walk is exponential on deep DAGs (MD5 rounds)
 	tab    map[string]*Term
 	nextID int
 	vars   []*Term
@@ -945,11 +951,66 @@ func (c *Ctx) BinBV(op Op, a, b *Term) *Term {
 		if op == OpBXor && a == b {
 			return c.Const(w, 0)
 		}
+		if op == OpBXor && (a.op == OpBXor || b.op == OpBXor) {
+			// (p ^ k) ^ k = p: cancel operands that occur on both sides of a xor chain (CBC chaining and
+			// key whitening undo themselves this way; without it the solver has to see through the key's
+			// derivation). The chain is rebuilt only when something cancels.
+			var la, lb []*Term
+			if xorLeaves(a, &la, 24) && xorLeaves(b, &lb, 24) {
+				cancelled := false
+				for i, x := range la {
+					if x == nil || x.IsConst() {
+						continue
+					}
+					for j, y := range lb {
+						if y != nil && x == y {
+							la[i], lb[j] = nil, nil
+							cancelled = true
+							break
+						}
+					}
+				}
+				if cancelled {
+					var k uint64
+					var r *Term
+					for _, x := range append(la, lb...) {
+						switch {
+						case x == nil:
+						case x.IsConst():
+							k ^= x.val
+						case r == nil:
+							r = x
+						default:
+							r = c.BinBV(OpBXor, r, x)
+						}
+					}
+					if r == nil {
+						return c.Const(w, k)
+					}
+					if k&mask(w) != 0 {
+						r = c.BinBV(OpBXor, r, c.Const(w, k))
+					}
+					return r
+				}
+			}
+		}
 		if op == OpBOr && a == b {
 			return a
 		}
 	}
 	return c.intern(&Term{op: op, sort: BV(w), args: []*Term{a, b}})
+}
+
+// xorLeaves collects the operands of a chain of xors (at most max of them).
+func xorLeaves(t *Term, out *[]*Term, max int) bool {
+	if t.op == OpBXor && !t.IsConst() {
+		return xorLeaves(t.args[0], out, max) && xorLeaves(t.args[1], out, max)
+	}
+	if len(*out) >= max {
+		return false
+	}
+	*out = append(*out, t)
+	return true
 }
 
 func (c *Ctx) Neg(a *Term) *Term {
@@ -1112,6 +1173,25 @@ func (c *Ctx) SExt(a *Term, w int) *Term {
 }
 
 func (c *Ctx) Extract(a *Term, hi, lo int) *Term {
+	if lo == 0 && hi-lo+1 == a.sort.W {
+		return a
+	}
+	if a.IsConst() {
+		return c.extract(a, hi, lo)
+	}
+	k := extractKey{a, hi, lo}
+	if r, ok := c.extMemo[k]; ok {
+		return r
+	}
+	r := c.extract(a, hi, lo)
+	if c.extMemo == nil {
+		c.extMemo = map[extractKey]*Term{}
+	}
+	c.extMemo[k] = r
+	return r
+}
+
+func (c *Ctx) extract(a *Term, hi, lo int) *Term {
 	w := hi - lo + 1
 	if lo == 0 && w == a.sort.W {
 		return a
